@@ -178,10 +178,10 @@ def run_worker(case: dict) -> Outcome:
     if s_iter is None:
         out.v("no-first-slot", "recurring job has no first execution time")
         return out
-    if j.get("defer_until") is not None and j["defer_until"] > t_enq:
+    if j.get("defer_until") is not None and j["defer_until"] > t_enq + 1e-6:
         if abs(s_iter - j["defer_until"]) > 1e-6:
             out.v("first-run-deferred-until", f"first slot {s_iter:.6f}, deferred_until {j['defer_until']:.6f} is ahead of {t_enq:.6f}")
-    elif not (t_enq < s_iter <= t_enq + p + 1e-6):
+    elif not (t_enq - 1e-6 < s_iter <= t_enq + p + 1e-6):
         out.v("first-run-window", f"first slot {s_iter:.6f} not within one period ({p}) after enqueue at {t_enq:.6f}")
     if execs and execs[0].t0 < s_iter - 0.001:
         out.v("first-run-early", f"first run at {execs[0].t0:.6f}, scheduled {s_iter:.6f}")
